@@ -1767,8 +1767,8 @@ class NullModel(explorer.Model):
                     if exp is None and s != d:
                         ctx.count('null_none_reads')
                     if exp != DELETED and not same(got, exp):
-                        bad('%s:read' % opname, 'reading %s.%s gives %r, expected %r: the spellings %s read %s' %
-                            (who, s, got, exp, self.sp[u][:len(seen)], seen), exp, got)
+                        bad('%s:read' % opname, 'reading %s.%s gives %r, expected %r (the declared spelling %s reads %r)' %
+                            (who, s, got, exp, d, getattr(inst, d, DELETED)), exp, got)
                         return False
                 if exp == DELETED:
                     if any(g is not None and g != DELETED for g in seen) or len(set(map(repr, seen))) != 1:
